@@ -62,7 +62,7 @@ def Err.show : Err → String
   | .inst => "inst" | .dtype => "dtype" | .shape => "shape" | .binSize => "binSize"
   | .id i => s!"id:{i}" | .bin i => s!"bin:{i}" | .degenerate i => s!"degenerate:{i}"
   | .outside i => s!"outside:{i}" | .dims i => s!"dims:{i}" | .overlap i j => s!"overlap:{i}:{j}"
-  | .mult id => s!"mult:{id}" | .noBins => "noBins" | .bins => "bins" | .nBins => "nBins"
+  | .mult v => s!"mult:{v}" | .noBins => "noBins" | .bins => "bins" | .nBins => "nBins"
   | .oob => "OOB" | .parse => "parse" | .count => "count"
 
 /-- the rows that have exactly six columns, as `Row`s (all of them if the shape is right) -/
